@@ -2,15 +2,12 @@
 //! the plain reference AST.
 //!
 //! STRING VALUES. Read off parse_schema.rs / description.rs:
-//!  * `DescriptionValue` of a quoted description is the RAW text between the quotes; of a block
-//!    string it is cooked by `clean_block_string_literal`. The tree does not say which one it was;
-//!    the projection looks at the source text under the description's span.
-//!  * `GraphQLConstantValue::String` is the RAW text between the quotes (block strings are not
-//!    accepted as constant values at all).
-//! Unlike in C29 the raw values are NOT run through the reference escape processing: the
-//! property is about the values the parser *reads*, and nothing downstream can tell a raw
-//! description from a cooked one. A quoted string without escape sequences is its own value, so
-//! only strings that contain an escape sequence can differ (`tree:...:escapes-not-processed`).
+//!  * `DescriptionValue` is the description's value (escape sequences replaced / block string cleaned);
+//!    it is compared as is. The `block` flag is read from the source text under the description's span.
+//!  * `GraphQLConstantValue::String` is kept in quoted *source form* (escape sequences as written; a block
+//!    string is converted to that form); every consumer prints it back between quotes. The value read is
+//!    that form run through the reference escape processing; whether it was written as a block string is
+//!    not recorded and not compared.
 //!
 //! NUMBERS: `Int(i64)` and `Float(f64)` are rendered with `{}` and the reference tokens are
 //! brought to the same rendering (`canonicalise_reference`).
@@ -38,7 +35,12 @@ fn constant_value(v: &g::GraphQLConstantValue) -> r::Value {
     match v {
         g::GraphQLConstantValue::Int(i) => r::Value::Int(i.to_string()),
         g::GraphQLConstantValue::Float(f) => r::Value::Float(format!("{}", f.as_float())),
-        g::GraphQLConstantValue::String(x) => r::Value::String(r::StringValue { value: s(x), block: false }),
+        // the codebase keeps string values in their quoted source form (escape sequences as written; it prints
+        // them back between quotes, see graphql_lang_types/src/value.rs): the value read is that form cooked
+        g::GraphQLConstantValue::String(x) => {
+            let raw = s(x);
+            r::Value::String(r::StringValue { value: crate::reference::lexer::cook_quoted(&raw).unwrap_or_else(|| format!("<not a StringCharacter sequence: {raw}>")), block: false })
+        }
         g::GraphQLConstantValue::Boolean(b) => r::Value::Boolean(*b),
         g::GraphQLConstantValue::Null => r::Value::Null,
         g::GraphQLConstantValue::Enum(e) => r::Value::Enum(s(e)),
@@ -188,6 +190,8 @@ pub fn canonicalise_reference(doc: &mut r::TypeSystemDocument) {
     crate::common::map_values_in_type_system(doc, &|v| match v {
         r::Value::Int(t) => *t = t.parse::<i64>().map(|i| i.to_string()).unwrap_or_else(|_| t.clone()),
         r::Value::Float(t) => *t = t.parse::<f64>().map(|f| format!("{f}")).unwrap_or_else(|_| t.clone()),
+        // GraphQLConstantValue::String does not record whether the literal was a block string
+        r::Value::String(s) => s.block = false,
         _ => {}
     });
     for d in &mut doc.definitions {
